@@ -23,17 +23,27 @@ def _sha(path):
 
 
 def compile_ext(cfile, modname, sanitize=False):
+    """sanitize: False | True (halting ASan+UBSan without the signed-left-shift check) | "recover"
+    (UBSan reports everything incl. signed left shifts and continues)"""
     import numpy
     cache = os.path.join(VERIF, ".cache", "ext")
     os.makedirs(cache, exist_ok=True)
-    key = _sha(cfile) + ("-san" if sanitize else "")
+    key = _sha(cfile) + ("" if not sanitize else ("-san4r" if sanitize == "recover" else "-san4"))
     out = os.path.join(cache, f"{modname}-{key}{EXT_SUFFIX}")
     if os.path.exists(out):
         return out, True
     inc = sysconfig.get_paths()["include"]
     if sanitize:
-        cmd = ["clang", "-O1", "-g", "-fno-omit-frame-pointer", "-fsanitize=address,undefined",
-               "-fno-sanitize-recover=undefined", "-shared-libsan", "-shared", "-fPIC"]
+        # alignment: x86 tolerates the extension's unaligned int loads, and the property is about bounds and
+        # undefined *arithmetic*; function/vptr: not applicable to C
+        if sanitize == "recover":
+            extra = ["-fno-sanitize=alignment,function,vptr", "-fsanitize-recover=undefined"]
+        else:
+            # shift-base (signed left shift of a negative value / into the sign bit) is defined as wrap-around by
+            # gcc and clang and assumed so by the models; it is probed separately with the "recover" build
+            extra = ["-fno-sanitize=alignment,function,vptr,shift-base", "-fno-sanitize-recover=undefined"]
+        cmd = ["clang", "-O1", "-g", "-fno-omit-frame-pointer", "-fsanitize=address,undefined"] + extra + \
+              ["-shared-libsan", "-shared", "-fPIC", "-w"]
     else:
         cmd = ["gcc", "-O1", "-shared", "-fPIC", "-w"]
     cmd += ["-DNPY_NO_DEPRECATED_API=0", f"-I{inc}", f"-I{numpy.get_include()}", cfile, "-o", out + ".tmp"]
